@@ -6617,7 +6617,7 @@ func c03ProgressStep(N, B, E []core.Point) func(int, core.Point) int {
 
 func (x *c03Ctx) r3() {
 	c := x.c
-	c.Rule("C03-R3", "LEXER-PROGRESS: (a) a state function sends at most cap(tokens) tokens per invocation and NextToken runs it only when the channel is empty, so the sender never blocks; (b) every loop of a state function consumes a rune on each iteration and leaves when the rune read is the end of input; (c) the states that can return without having consumed a rune or sent a token form no cycle; every cycle of the state graph passes a state that, at end of input, sends EOF and stops the machine")
+	c.Rule("C03-R3", "LEXER-PROGRESS: (a) a state function sends at most cap(tokens) tokens per invocation and NextToken runs it only when the channel is empty, so the sender never blocks; (b) every loop of a state function consumes a rune on each iteration and leaves when the rune read is the end of input; (c) the states that can return without having consumed a rune or sent a token form no cycle; every cycle of the state graph passes a state that, at end of input, sends EOF and stops the machine; (d) from the initial configuration, for every class of first runes that the lexer's comparisons and predicates can tell apart, the chain of transitions that consume nothing does not come back to a configuration (state, flags) it has visited — a rune pushed back for another state is accepted by that state")
 	pkg := c.Prog.Pkgs["internal/runtime/compiler/parser"]
 	nl := c.MustFn("C03-R3", c03NewLexer)
 	nt := c.MustFn("C03-R3", c03NextToken)
@@ -6916,6 +6916,8 @@ func (x *c03Ctx) r3() {
 	}
 	c.Verdict(eofCycle == nil && nStop > 0, "C03-R3", "state graph|every cycle stops at end of input", pos(c, initState.Decl), fmt.Sprintf("%d state(s) send EOF and stop at end of input; no cycle avoids them", nStop),
 		"there is a cycle of states none of which stops the machine at end of input (reads there consume nothing): the lexer never delivers EOF: "+strings.Join(eofCycle, "; "))
+	// (d) a rune pushed back for another state is accepted by that state
+	lx.reread(initState, nl)
 }
 
 // targets: the state functions a returned expression can denote.
